@@ -1,108 +1,148 @@
 ---------------------------- MODULE DMapKey ----------------------------
-(* Prototype: one key, stable membership.  Owner copy L, backup copies B[1..NB].
-   Writes: lock -> check -> each backup -> local -> unlock.  Reads: local, then each
-   backup, newest timestamp wins.  Deletes: lock -> (local missing? return) -> backups -> local.
-   History-based linearizability check at quiescence. *)
+(* One key of one DMap in a cluster with stable membership, at the grain of the owner's critical
+   sections (internal/dmap put.go, delete.go, get.go as repaired).  Owner copy L, backup copies
+   B[1..NB].  One action per trace point of the code (verifhook.At names in brackets):
+
+     write : Start (the write timestamp is taken here, BEFORE the fragment lock: newEnv)
+             -> WrLock [put.locked] -> WrCheck NX/XX against L [put.checked]
+             -> WrLocal [entry.stored] -> WrBackup(b) for b = 1..NB, one at a time [put.replica] -> return
+     delete: DelLock [del.locked] -> DelCheck (L missing and no other holder: return)
+             -> DelBackups (all backups) [del.replicas] -> DelLocal [del.local] -> return
+     read  : RdLocal (under the read lock, so not while a writer holds the lock) [get.owners]
+             -> RdBackup(b) [get.replicas] -> RdDecide: newest timestamp wins
+             -> with ReadRepair: RrStep over the copies that differed AT READ TIME, the owner's own copy under
+                the fragment lock, a backup's copy with a plain entry write [get.repair.before .. get.repaired]
+
+   Properties: Linearizable (every complete history of Put/PutNX/PutXX/Get/Delete on the key has a
+   linearization; checked at quiescence over the recorded history) and MirrorAtQuiescence (all copies
+   equal when nothing is in flight - C04 at the design level).
+
+   With ReadRepair = FALSE both hold.  With ReadRepair = TRUE TLC finds the histories of known finding D23
+   (a Get that overlaps writes re-installs the version it saw): configuration DMapKey_rr.cfg is expected to
+   FAIL and the check reports it as such.  LockWrites / LockDeletes = FALSE remove the fragment lock and are used to
+   see that the properties depend on it. *)
 EXTENDS Naturals, Sequences, FiniteSets, TLC, SequencesExt
 
-CONSTANTS Clients, NB, Prog, LockWrites, LockDeletes
+CONSTANTS Clients, NB, Prog, LockWrites, LockDeletes, ReadRepair
 \* Prog[c] : sequence of ops, op = [kind |-> "put"|"putnx"|"putxx"|"get"|"del", val |-> v]
 
-VARIABLES L, B, lock, pc, opi, ts, clock, acc, hist, hclock
-vars == <<L, B, lock, pc, opi, ts, clock, acc, hist, hclock>>
+VARIABLES L, B, lock, pc, opi, ts, clock, acc, rr, hist, hclock
+vars == <<L, B, lock, pc, opi, ts, clock, acc, rr, hist, hclock>>
 
 None == [val |-> "nil", ts |-> 0]
 Backups == 1..NB
 
 Op(c) == Prog[c][opi[c]]
-IsWrite(k) == k \in {"put", "putnx", "putxx"}
 
 Init == /\ L = None /\ B = [b \in Backups |-> None] /\ lock = "free"
         /\ pc = [c \in Clients |-> "idle"] /\ opi = [c \in Clients |-> 1]
         /\ ts = [c \in Clients |-> 0] /\ clock = 0
-        /\ acc = [c \in Clients |-> <<>>]            \* versions gathered by a reader
+        /\ acc = [c \in Clients |-> <<>>]            \* versions gathered by a reader: <<L, B[1], .., B[NB]>>
+        /\ rr = [c \in Clients |-> [w |-> None, todo |-> {}]]   \* read repair in progress: winner, copies still to write (0 = owner)
         /\ hist = <<>> /\ hclock = 0                   \* completed ops: [c, kind, val, ret, inv, res]
 
-\* invocation: newEnv takes the timestamp *before* the lock
 Start(c) == /\ pc[c] = "idle" /\ opi[c] <= Len(Prog[c])
             /\ clock' = clock + 1 /\ ts' = [ts EXCEPT ![c] = clock + 1]
             /\ hclock' = hclock + 1
             /\ hist' = Append(hist, [c |-> c, kind |-> Op(c).kind, val |-> Op(c).val, ret |-> "?", inv |-> hclock + 1, res |-> 0])
             /\ pc' = [pc EXCEPT ![c] = IF Op(c).kind = "get" THEN "rd_local"
                                        ELSE IF Op(c).kind = "del" THEN "del_lock" ELSE "wr_lock"]
-            /\ UNCHANGED <<L, B, lock, opi, acc>>
+            /\ UNCHANGED <<L, B, lock, opi, acc, rr>>
 
 Finish(c, ret) ==
   LET j == CHOOSE j \in 1..Len(hist) : hist[j].c = c /\ hist[j].res = 0 IN
   /\ hist' = [hist EXCEPT ![j].ret = ret, ![j].res = hclock + 1]
   /\ hclock' = hclock + 1
   /\ opi' = [opi EXCEPT ![c] = @ + 1]
+Release(c) == IF lock = c THEN "free" ELSE lock
 
 \* ---- write ----
 WrLock(c) == /\ pc[c] = "wr_lock" /\ (LockWrites => lock = "free")
              /\ lock' = IF LockWrites THEN c ELSE lock
-             /\ pc' = [pc EXCEPT ![c] = "wr_check"] /\ UNCHANGED <<L, B, opi, ts, clock, acc, hist, hclock>>
+             /\ pc' = [pc EXCEPT ![c] = "wr_check"] /\ UNCHANGED <<L, B, opi, ts, clock, acc, rr, hist, hclock>>
 WrCheck(c) == /\ pc[c] = "wr_check"
               /\ LET k == Op(c).kind
                      fail == (k = "putnx" /\ L.val # "nil") \/ (k = "putxx" /\ L.val = "nil") IN
                  IF fail THEN /\ Finish(c, IF k = "putnx" THEN "found" ELSE "notfound")
-                              /\ pc' = [pc EXCEPT ![c] = "idle"]
-                              /\ lock' = IF lock = c THEN "free" ELSE lock
-                         ELSE /\ pc' = [pc EXCEPT ![c] = IF NB = 0 THEN "wr_local" ELSE "wr_b1"]
+                              /\ pc' = [pc EXCEPT ![c] = "idle"] /\ lock' = Release(c)
+                         ELSE /\ pc' = [pc EXCEPT ![c] = "wr_local"]
                               /\ UNCHANGED <<hist, hclock, opi, lock>>
-              /\ UNCHANGED <<L, B, ts, clock, acc>>
-WrBackup(c, b) == /\ pc[c] = "wr_b" \o ToString(b)
-                  /\ B' = [B EXCEPT ![b] = [val |-> Op(c).val, ts |-> ts[c]]]
-                  /\ pc' = [pc EXCEPT ![c] = IF b = NB THEN "wr_local" ELSE "wr_b" \o ToString(b + 1)]
-                  /\ UNCHANGED <<L, lock, opi, ts, clock, acc, hist, hclock>>
+              /\ UNCHANGED <<L, B, ts, clock, acc, rr>>
+\* the primary copy first (an entry the owner rejects never reaches the replicas)
 WrLocal(c) == /\ pc[c] = "wr_local"
               /\ L' = [val |-> Op(c).val, ts |-> ts[c]]
-              /\ lock' = IF lock = c THEN "free" ELSE lock
-              /\ Finish(c, "ok") /\ pc' = [pc EXCEPT ![c] = "idle"]
-              /\ UNCHANGED <<B, ts, clock, acc>>
+              /\ IF NB = 0 THEN Finish(c, "ok") /\ pc' = [pc EXCEPT ![c] = "idle"] /\ lock' = Release(c)
+                 ELSE pc' = [pc EXCEPT ![c] = "wr_b1"] /\ UNCHANGED <<hist, hclock, opi, lock>>
+              /\ UNCHANGED <<B, ts, clock, acc, rr>>
+WrBackup(c, b) == /\ pc[c] = "wr_b" \o ToString(b)
+                  /\ B' = [B EXCEPT ![b] = [val |-> Op(c).val, ts |-> ts[c]]]
+                  /\ IF b = NB THEN Finish(c, "ok") /\ pc' = [pc EXCEPT ![c] = "idle"] /\ lock' = Release(c)
+                     ELSE pc' = [pc EXCEPT ![c] = "wr_b" \o ToString(b + 1)] /\ UNCHANGED <<hist, hclock, opi, lock>>
+                  /\ UNCHANGED <<L, ts, clock, acc, rr>>
 
 \* ---- delete ----
 DelLock(c) == /\ pc[c] = "del_lock" /\ (LockDeletes => lock = "free")
               /\ lock' = IF LockDeletes THEN c ELSE lock
-              /\ pc' = [pc EXCEPT ![c] = "del_check"] /\ UNCHANGED <<L, B, opi, ts, clock, acc, hist, hclock>>
+              /\ pc' = [pc EXCEPT ![c] = "del_check"] /\ UNCHANGED <<L, B, opi, ts, clock, acc, rr, hist, hclock>>
+\* a key that is missing on the owner is still deleted on the replicas when there are any (repaired D12)
 DelCheck(c) == /\ pc[c] = "del_check"
-               /\ IF L.val = "nil"
-                  THEN /\ Finish(c, "ok") /\ pc' = [pc EXCEPT ![c] = "idle"]
-                       /\ lock' = IF lock = c THEN "free" ELSE lock
-                  ELSE /\ pc' = [pc EXCEPT ![c] = IF NB = 0 THEN "del_local" ELSE "del_b1"]
+               /\ IF L.val = "nil" /\ NB = 0
+                  THEN /\ Finish(c, "ok") /\ pc' = [pc EXCEPT ![c] = "idle"] /\ lock' = Release(c)
+                  ELSE /\ pc' = [pc EXCEPT ![c] = IF NB = 0 THEN "del_local" ELSE "del_backups"]
                        /\ UNCHANGED <<hist, hclock, opi, lock>>
-               /\ UNCHANGED <<L, B, ts, clock, acc>>
-DelBackup(c, b) == /\ pc[c] = "del_b" \o ToString(b)
-                   /\ B' = [B EXCEPT ![b] = None]
-                   /\ pc' = [pc EXCEPT ![c] = IF b = NB THEN "del_local" ELSE "del_b" \o ToString(b + 1)]
-                   /\ UNCHANGED <<L, lock, opi, ts, clock, acc, hist, hclock>>
+               /\ UNCHANGED <<L, B, ts, clock, acc, rr>>
+DelBackups(c) == /\ pc[c] = "del_backups"
+                 /\ B' = [b \in Backups |-> None]
+                 /\ pc' = [pc EXCEPT ![c] = "del_local"]
+                 /\ UNCHANGED <<L, lock, opi, ts, clock, acc, rr, hist, hclock>>
 DelLocal(c) == /\ pc[c] = "del_local"
-               /\ L' = None /\ lock' = IF lock = c THEN "free" ELSE lock
+               /\ L' = None /\ lock' = Release(c)
                /\ Finish(c, "ok") /\ pc' = [pc EXCEPT ![c] = "idle"]
-               /\ UNCHANGED <<B, ts, clock, acc>>
+               /\ UNCHANGED <<B, ts, clock, acc, rr>>
 
-\* ---- read ---- (read lock is held only for the local read; a writer holding the lock blocks it)
+\* ---- read ---- (the read lock is held only for the local read; a writer holding the lock blocks it)
 RdLocal(c) == /\ pc[c] = "rd_local" /\ lock = "free"
               /\ acc' = [acc EXCEPT ![c] = <<L>>]
               /\ pc' = [pc EXCEPT ![c] = IF NB = 0 THEN "rd_decide" ELSE "rd_b1"]
-              /\ UNCHANGED <<L, B, lock, opi, ts, clock, hist, hclock>>
+              /\ UNCHANGED <<L, B, lock, opi, ts, clock, rr, hist, hclock>>
 RdBackup(c, b) == /\ pc[c] = "rd_b" \o ToString(b)
                   /\ acc' = [acc EXCEPT ![c] = Append(@, B[b])]
                   /\ pc' = [pc EXCEPT ![c] = IF b = NB THEN "rd_decide" ELSE "rd_b" \o ToString(b + 1)]
-                  /\ UNCHANGED <<L, B, lock, opi, ts, clock, hist, hclock>>
-RdDecide(c) == /\ pc[c] = "rd_decide"
-               /\ LET live == {i \in 1..Len(acc[c]) : acc[c][i].val # "nil"} IN
-                  IF live = {} THEN Finish(c, "nil")
-                  ELSE \E i \in live : /\ \A j \in live : acc[c][j].ts <= acc[c][i].ts
-                                       /\ Finish(c, acc[c][i].val)
-               /\ pc' = [pc EXCEPT ![c] = "idle"] /\ acc' = [acc EXCEPT ![c] = <<>>]
-               /\ UNCHANGED <<L, B, lock, ts, clock>>
+                  /\ UNCHANGED <<L, B, lock, opi, ts, clock, rr, hist, hclock>>
+RdDecide(c) ==
+  /\ pc[c] = "rd_decide"
+  /\ LET live == {i \in 1..Len(acc[c]) : acc[c][i].val # "nil"} IN
+     IF live = {} THEN /\ Finish(c, "nil") /\ pc' = [pc EXCEPT ![c] = "idle"] /\ rr' = rr
+     ELSE \E i \in live :
+            /\ \A j \in live : acc[c][j].ts <= acc[c][i].ts
+            /\ LET w == acc[c][i]
+                   stale == {j \in 1..Len(acc[c]) : acc[c][j].ts # w.ts} IN   \* index 1 = owner, j+1 = backup j
+               IF ReadRepair /\ stale # {}
+               THEN /\ rr' = [rr EXCEPT ![c] = [w |-> w, todo |-> {j - 1 : j \in stale}]]
+                    /\ pc' = [pc EXCEPT ![c] = "rd_repair"]
+                    /\ UNCHANGED <<hist, hclock, opi>>
+               ELSE /\ Finish(c, w.val) /\ pc' = [pc EXCEPT ![c] = "idle"] /\ rr' = rr
+  /\ acc' = [acc EXCEPT ![c] = <<>>]
+  /\ UNCHANGED <<L, B, lock, ts, clock>>
+\* read repair writes the version the reader saw, without looking at what the copy holds by now
+RrStep(c) ==
+  /\ pc[c] = "rd_repair"
+  /\ IF rr[c].todo = {}
+     THEN /\ Finish(c, rr[c].w.val) /\ pc' = [pc EXCEPT ![c] = "idle"]
+          /\ rr' = [rr EXCEPT ![c] = [w |-> None, todo |-> {}]] /\ UNCHANGED <<L, B>>
+     ELSE \E t \in rr[c].todo :
+            /\ (t = 0 => lock = "free")          \* the owner's own copy is written under the fragment lock
+            /\ L' = IF t = 0 THEN rr[c].w ELSE L
+            /\ B' = IF t = 0 THEN B ELSE [B EXCEPT ![t] = rr[c].w]
+            /\ rr' = [rr EXCEPT ![c].todo = @ \ {t}]
+            /\ UNCHANGED <<pc, hist, hclock, opi>>
+  /\ UNCHANGED <<lock, ts, clock, acc>>
 
 Next == \E c \in Clients :
           \/ Start(c) \/ WrLock(c) \/ WrCheck(c) \/ WrLocal(c)
-          \/ DelLock(c) \/ DelCheck(c) \/ DelLocal(c)
-          \/ RdLocal(c) \/ RdDecide(c)
-          \/ \E b \in Backups : WrBackup(c, b) \/ DelBackup(c, b) \/ RdBackup(c, b)
+          \/ DelLock(c) \/ DelCheck(c) \/ DelBackups(c) \/ DelLocal(c)
+          \/ RdLocal(c) \/ RdDecide(c) \/ RrStep(c)
+          \/ \E b \in Backups : WrBackup(c, b) \/ RdBackup(c, b)
 Spec == Init /\ [][Next]_vars
 
 \* ---- linearizability of the completed history (checked at quiescence) ----
@@ -120,4 +160,7 @@ RespectsRealTime(order) == \A i, j \in 1..Len(order) : i < j => ~(hist[order[j]]
 Linearizable == Quiescent => \E order \in SetToSeqs(1..Len(hist)) : RespectsRealTime(order) /\ Legal(order, "nil")
 \* all copies agree once nothing is in flight
 MirrorAtQuiescence == Quiescent => \A b \in Backups : B[b] = L
+\* the fragment lock is exclusive
+InCS(c) == pc[c] \in {"wr_check", "wr_local", "del_check", "del_backups", "del_local"} \cup {"wr_b" \o ToString(b) : b \in Backups}
+LockDiscipline == (LockWrites /\ LockDeletes) => \A c, d \in Clients : (c # d /\ InCS(c)) => ~InCS(d)
 =============================================================================
